@@ -197,6 +197,7 @@ func runC20(c *Ctx) {
 	c20Formats(c)
 	c20SetConstruction(c)
 	c20Encoded(c)
+	c20Extra(c)
 }
 
 var c20ControllerNoAnnotations = map[string]string{
